@@ -9,7 +9,7 @@ ASCII = [chr(i) for i in range(128)]
 CLS = ["a", "Z", "0", "~", ".", "-", "/", "?", "#", "@", ":", "[", "]", "&", "=", "+", ";", "!", " ", '"',
        "\x00", "\x7f", "%", "\\", "|", "^", "{", "<", "`", "'", ",", "$", "*", "(", "_"]
 
-UNI = ["é", "€", "\U0001f600", " ", "​"]
+UNI = ["é", "€", "\U0001f600", " ", "​", "\ud55c"]  # last: U+D55C, UTF-8 lead byte 0xED like the encoded surrogates
 SURR = ["\ud800", "\udfff"]
 
 ESC = ["%41", "%7e", "%7E", "%2F", "%2f", "%2B", "%2b", "%26", "%3D", "%3B", "%3F", "%23", "%25", "%20", "%2E", "%2e",
